@@ -179,7 +179,7 @@ func cmdCheck(args []string) int {
 		tier = "quick"
 	}
 	if budget == 0 {
-		budget = 150
+		budget = 240
 		if tier == "thorough" {
 			budget = 1500
 		}
